@@ -24,8 +24,23 @@ impl EngineOutput {
 #[verifier::external_body]
 pub fn verif_is_cork_type(c: &ZmtpEngineConfig) -> bool { unimplemented!() }
 // R8: `self.config.routing_id.as_ref().map_or_else(Vec::new, |id| id.as_ref().to_vec())`
+// what an endpoint announces as its identity: the configured routing id (absent = anonymous = empty)
+pub open spec fn announced_id(c: ZmtpEngineConfig) -> Seq<u8> { match c.routing_id { Some(b) => b@, None => Seq::<u8>::empty() } }
 #[verifier::external_body]
-pub fn verif_routing_id_bytes(c: &ZmtpEngineConfig) -> Vec<u8> { unimplemented!() }
+pub fn verif_routing_id_bytes(c: &ZmtpEngineConfig) -> (r: Vec<u8>) ensures r@ == announced_id(*c) { unimplemented!() }
+// R8 (build_local_ready_props): the two property names as opaque keys (string literals are outside the proof); ASSUMED distinct
+pub uninterp spec fn KEY_IDENTITY() -> String;
+pub uninterp spec fn KEY_SOCKET_TYPE() -> String;
+pub broadcast axiom fn axiom_ready_keys() ensures #[trigger] KEY_IDENTITY() != KEY_SOCKET_TYPE();
+pub broadcast axiom fn axiom_string_key_model() ensures #[trigger] vstd::std_specs::hash::obeys_key_model::<String>();
+#[verifier::external_body]
+pub fn verif_key_identity() -> (r: String) ensures r == KEY_IDENTITY() { unimplemented!() }
+#[verifier::external_body]
+pub fn verif_key_socket_type() -> (r: String) ensures r == KEY_SOCKET_TYPE() { unimplemented!() }
+// R8: `config.socket_type_name.as_bytes().to_vec()` / `rid.as_ref().to_vec()`
+#[verifier::external_body]
+pub fn verif_name_bytes(c: &ZmtpEngineConfig) -> Vec<u8> { unimplemented!() }
+impl Blob { #[verifier::external_body] pub fn verif_to_vec(&self) -> (r: Vec<u8>) ensures r@ == self@ { unimplemented!() } }
 // R8: `self.config.heartbeat_timeout.map(|d| d.as_millis().min(u16::MAX as u128) as u16).unwrap_or(0)`
 #[verifier::external_body]
 pub fn verif_ttl_ms(c: &ZmtpEngineConfig) -> u16 { unimplemented!() }
@@ -43,8 +58,6 @@ pub open spec fn elapsed(now: Instant, since: Instant) -> nat { if now.ns() >= s
 pub fn local_mechanism_name_bytes(config: &ZmtpEngineConfig) -> &'static [u8; 20] { unimplemented!() }
 #[verifier::external_body]
 pub fn socket_type_code(name: &String) -> Option<u8> { unimplemented!() }
-#[verifier::external_body]
-pub fn build_local_ready_props(config: &ZmtpEngineConfig) -> HashMap<String, Vec<u8>> { unimplemented!() }
 // C05: "peer socket type is a valid pairing for the local one" -- established only by a compatibility check
 // (validate_v2_compatibility establishes it on the ZMTP/2.0 path); nothing establishes it on the ZMTP/3.x path today
 pub uninterp spec fn pairing_checked(c: ZmtpEngineConfig, peer_type: Option<String>) -> bool;
@@ -204,6 +217,14 @@ parts = [
      ensures=[HS_FRAME, ("C06:framer_remembers_its_mechanism", "r matches Ok(f) ==> f.origin_kind() == old(self).security_mechanism.kind() && f.origin_complete() == old(self).security_mechanism.complete() && f.origin_role_server() == old(self).security_mechanism.role_server()"),
               ("C06:frame", "final(self).version == old(self).version && final(self).config == old(self).config && final(self).phase == old(self).phase && final(self).partial_batch == old(self).partial_batch "
                             "&& final(self).network_read_accumulator == old(self).network_read_accumulator && final(self).framer == old(self).framer && final(self).pending_framer == old(self).pending_framer")]),
+  # READY metadata the endpoint announces (ZMTP/3.x): the Identity property is the configured routing id, present iff it is non-empty
+  Fn(EN, "build_local_ready_props",
+     ensures=[("C05:ready_announces_the_configured_routing_id",
+               "r@.contains_key(KEY_IDENTITY()) == (announced_id(*config).len() > 0) && (announced_id(*config).len() > 0 ==> r@[KEY_IDENTITY()]@ == announced_id(*config))"),
+              ("C05:ready_announces_the_socket_type", "r@.contains_key(KEY_SOCKET_TYPE())")],
+     extra=[("R8", '"Socket-Type".to_string()', "verif_key_socket_type()", 1, "pre"), ("R8", '"Identity".to_string()', "verif_key_identity()", 1, "pre"),
+            ("R8", "config.socket_type_name.as_bytes().to_vec()", "verif_name_bytes(config)", 1), ("R8", "rid.as_ref().to_vec()", "rid.verif_to_vec()", 1)],
+     hints=[("bc", "@fn_start", 0, "", "broadcast use {axiom_ready_keys, axiom_string_key_model, vstd::std_specs::hash::group_hash_axioms}; proof { assert(vstd::std_specs::hash::obeys_key_model::<String>()); assert(vstd::std_specs::hash::builds_valid_hashers::<std::hash::RandomState>()); }")]),
   Fn(EN, "emit_local_ready", impl=IMPL, emit_impl="impl ZmtpEngine",
      ensures=[("C06:never_reports_completion", "n_gated(final(out).app_actions@) == n_gated(old(out).app_actions@)"),
               ("C06:output_only_appended", "extends(old(out).app_actions@, final(out).app_actions@)"),
@@ -256,7 +277,10 @@ parts = [
      ]),
   Fn(EN, "process_v2_identity", impl=IMPL, emit_impl="impl ZmtpEngine", safety_props=["C02", "C04", "C06", "C07"],
      requires=["n_gated(old(out).app_actions@) > 0 ==> old(self).auth_ok()", "old(self).inv()", "old(self).phase == ZmtpPhase::V2Identity"],
-     ensures=handler_post([("C19:no_heartbeat_state_on_v2", "final(self).version == old(self).version")]),
+     ensures=handler_post([("C19:no_heartbeat_state_on_v2", "final(self).version == old(self).version"),
+       ("C05:v2_identity_frame_announces_the_configured_routing_id",
+        "!old(self).v2_identity_sent && final(self).v2_identity_sent ==> sends(final(out).net_actions@).len() > sends(old(out).net_actions@).len() "
+        "&& sends(final(out).net_actions@)[sends(old(out).net_actions@).len() as int] == enc_frame(false, false, announced_id(*old(self).config))")]),
      extra=CORK + [
        ("R8", re.compile(r"self\s*\.config\s*\.routing_id\s*\.as_ref\(\)\s*\.map_or_else\(Vec::new, \|id\| id\.as_ref\(\)\.to_vec\(\)\)", re.S), "verif_routing_id_bytes(&self.config)", 1),
        ("R5", "crate::Msg::from_vec", "Msg::from_vec", 1),
